@@ -34,16 +34,16 @@ def run_checks(d, plist, tier, env=None):
         kinds, ob_sigs = {}, []
         for v in viol:
             try:
-                d = json.load(open(v.split("replay=")[1].split()[0]))
+                rj = json.load(open(v.split("replay=")[1].split()[0]))
             except Exception:
                 continue
             if len(sigs) < 4:
-                sigs.append(d["signature"][:160])
-            kd = d.get("kind", "?")
+                sigs.append(rj["signature"][:160])
+            kd = rj.get("kind", "?")
             if kd == "obligation":
-                kd = "L1 frame obligation" if d["signature"].startswith("frames.") else "L2 obligation"
+                kd = "L1 frame obligation" if rj["signature"].startswith("frames.") else "L2 obligation"
                 if len(ob_sigs) < 3:
-                    ob_sigs.append(d["signature"][:160] + (" [replayed input]" if d.get("replay") else " [no-failing-input-found]"))
+                    ob_sigs.append(rj["signature"][:160] + (" [replayed input]" if rj.get("replay") else " [no-failing-input-found]"))
             kinds[kd] = kinds.get(kd, 0) + 1
         out[p] = {"exit": rc, "violations": viol[:6], "signatures": sigs, "undecided": und[:4], "wall_s": round(time.time() - t0, 1),
                   "tier": tier, "detected": rc == 1 and bool(viol), "violations_by_kind": kinds, "obligation_signatures": ob_sigs}
